@@ -62,13 +62,15 @@ pub fn menu() -> Vec<Entry> {
     entry("name-with-quotes", 24, Some("Vendor \"Pro\" Keyboard"), Some("/devices/platform/m/input/input24"), Some("120013"), Some(KB_KEYS)),
     entry("name-unicode", 25, Some("Tastatur Ü ⌨"), Some("/devices/platform/l/input/input25"), Some("120013"), Some(KB_KEYS)),
     entry("name-trailing-space", 26, Some("Spacey Keyboard "), Some("/devices/platform/k/input/input26"), Some("120013"), Some(KB_KEYS)),
+    entry("name-leading-spaces", 28, Some("  USB Keyboard"), Some("/devices/platform/i/input/input28"), Some("120013"), Some(KB_KEYS)),
+    entry("name-blanks-both-ends-and-tab", 29, Some(" \tOdd  Keyboard \t"), Some("/devices/platform/h/input/input29"), Some("120013"), Some(KB_KEYS)),
     entry("name-glob-chars", 27, Some("Key*board? [x]"), Some("/devices/platform/j/input/input27"), Some("120013"), Some(KB_KEYS)),
     entry("three-normal-keys", 23, Some("Button Box"), Some("/devices/platform/n/input/input23"), Some("120013"), Some("B: KEY=ffffff 0 0 0 10004002")),
   ]
 }
 
-pub const GLOBS: [&str; 16] = ["AT Translated Set 2 keyboard", "*", "?oo USB Keyboard", "AT*", "*keyboard", "*USB*", "No Such Device", "*Mouse*", "Foo USB Keyboar?",
-  "", "**", "*?*", "Key*board? [x]", "Key\\*board*", "*Ü*", "* "];
+pub const GLOBS: [&str; 19] = ["AT Translated Set 2 keyboard", "*", "?oo USB Keyboard", "AT*", "*keyboard", "*USB*", "No Such Device", "*Mouse*", "Foo USB Keyboar?",
+  "", "**", "*?*", "Key*board? [x]", "Key\\*board*", "*Ü*", "* ", "USB*", " *", "Odd*"];
 
 /// independent glob matcher: `*` any run of characters, `?` exactly one character
 pub fn glob_match(pat: &str, s: &str) -> bool {
